@@ -10,14 +10,99 @@ TIMEOUT_MS = 3000
 LEVEL = "proof"
 SHRINK_KEY = "ops"
 SHARD_SIZE = 25
-term = poolcases.term
-nontrivial = poolcases.nontrivial
-distribution = poolcases.distribution
+from ..core import gz, glist, gbool
+
+NOW = 1000
+DL = {"zero": 0, "past": 999, "now": 1000, "soon": 1000 + 30 * 10**6, "far": 1000 + 3 * 10**9, "max": 2**64 - 1}
+
+
+def join_case(rng):
+    """tasks submitted through EventLoops::submit_task and joined through their JoinHandle from a plain
+    thread: deadlines zero / past / now / soon / far / none, before and after the task finishes"""
+    tasks = []
+    for _ in range(rng.randint(2, 5)):
+        k = rng.random()
+        if k < 0.6:
+            out = {"k": "value", "v": str(rng.choice([0, 1, 7, 2**31, 2**62]))}
+        elif k < 0.75:
+            out = {"k": "static", "m": rng.randrange(100)}
+        elif k < 0.9:
+            out = {"k": "owned", "m": rng.randrange(100)}
+        else:
+            out = {"k": "other", "m": 0}
+        late = rng.random() < 0.4
+        joins = []
+        if late:
+            for _ in range(rng.randint(0, 2)):       # while it runs: these may only time out
+                joins.append({"api": rng.choice(["at", "dur"]), "dl": rng.choice(["zero", "past", "now", "soon"])})
+            joins.append({"api": rng.choice(["at", "dur", "join"]), "dl": rng.choice(["far", "max"])})
+        else:
+            joins.append({"api": rng.choice(["at", "at", "dur"]), "dl": rng.choice(["zero", "past", "now", "soon", "far", "max"])})
+        for j in joins:
+            if j["api"] == "join":
+                j["dl"] = "max"
+        for _ in range(rng.randint(0, 1)):            # the result has been handed out: only a timeout is left
+            joins.append({"api": "at", "dl": rng.choice(["zero", "now", "soon"])})
+        tasks.append({"out": out, "late_ms": 250 if late else 0, "joins": joins})
+    return {"area": "joinh", "isolate": True, "timeout_ms": 30000, "tasks": tasks, "kind": "join_handle", "ops": []}
+
+
+def _jres(r):
+    if isinstance(r, dict) and "val" in r:
+        return "(JHVal %s)" % poolcases.g_tres(r["val"])
+    return {"timeout": "JHTimedOut", "invalid": "JHInvalid"}.get(r, "JHInvalid")
+
+
+def _expected(out):
+    if out["k"] == "value":
+        return "(TOk %s)" % gz(out["v"])
+    if out["k"] == "other":
+        return "(TErr (TM MNoMsg))"
+    return "(TErr (TM (MStr %s)))" % gz(out["m"])
+
+
+def term(case, obs):
+    if case.get("area") != "joinh":
+        return "(@inl pcase jcase %s)" % poolcases.term(case, obs)
+    tasks = []
+    for i, t in enumerate(case["tasks"]):
+        o = obs[i] if i < len(obs) and isinstance(obs[i], dict) else {"joins": []}
+        js = []
+        for k, j in enumerate(t["joins"]):
+            jo = o["joins"][k] if k < len(o["joins"]) else {"r": "invalid", "before": False, "after": False}
+            fin = "(Some 0)" if jo["before"] else "None"
+            amb = (not jo["before"]) and jo["after"]
+            js.append("{| jo_join := {| jj_deadline := %s; jj_now := %s; jj_fin_at := %s |}; jo_ambiguous := %s; jo_impl := %s |}"
+                      % (gz(DL[j["dl"]]), gz(NOW), fin, gbool(amb), _jres(jo["r"])))
+        tasks.append("{| jt_res := %s; jt_joins := %s |}" % (_expected(t["out"]), glist(js)))
+    return "(@inr pcase jcase {| jc_tasks := %s |})" % glist(tasks)
+
+
+def nontrivial(case, obs, verdict):
+    if case.get("area") == "joinh":
+        return bool(obs)
+    return poolcases.nontrivial(case, obs, verdict)
+
+
+def distribution(results):
+    d = poolcases.distribution([(c, o, v) for c, o, v in results if c.get("area") != "joinh"])
+    jc = [(c, o, v) for c, o, v in results if c.get("area") == "joinh"]
+    d["join_handle_cases"] = len(jc)
+    d["join_handle_joins"] = sum(len(t["joins"]) for c, o, v in jc for t in c["tasks"])
+    d["join_deadline_kinds"] = {}
+    for c, o, v in jc:
+        for t in c["tasks"]:
+            for j in t["joins"]:
+                key = j["api"] + ":" + j["dl"]
+                d["join_deadline_kinds"][key] = d["join_deadline_kinds"].get(key, 0) + 1
+    return d
 
 
 def gen(rng, tier):
     n = {"quick": 120, "thorough": 1500, "search": 600}[tier]
-    return [poolcases.gen_case(rng, npools=1 if i % 3 else 2) for i in range(n)]
+    cases = [poolcases.gen_case(rng, npools=1 if i % 3 else 2) for i in range(n)]
+    cases += [join_case(rng) for _ in range({"quick": 8, "thorough": 60, "search": 8}[tier])]
+    return cases
 
 
 def extra(tier, rng, build_cache, known):
